@@ -192,6 +192,21 @@ impl ResourcePool {
             } else {
                 index
             };
+            // The fractional remainder goes into a group that is not used yet, if there is
+            // such a group that can provide it (scatter uses as many groups as possible)
+            let group_idx = if units == 0 {
+                let n_groups = group_set.map(|gs| gs.len()).unwrap_or(pool.indices.len());
+                (0..n_groups)
+                    .map(|i| group_set.map(|gs| gs[i]).unwrap_or(i))
+                    .find(|g| {
+                        !indices.iter().any(|i| i.group_idx as usize == *g)
+                            && (!pool.indices[*g].is_empty()
+                                || pool.fractions[*g].values().any(|f| *f >= fractions))
+                    })
+                    .unwrap_or(group_idx)
+            } else {
+                group_idx
+            };
             if units > 0 {
                 if let Some(index) = pool.indices[group_idx].pop() {
                     units -= 1;
